@@ -110,6 +110,9 @@ theorem All_true : ∀ t : CT σ, All (fun _ => True) t
   | ret _ => trivial
   | flip f => fun b => All_true (f b)
 
+theorem leaves_map (h : σ → τ) (t : CT σ) : leaves (map h t) = leaves t := by
+  simp only [map, leaves_bind, leaves_ret, sum_const, Nat.mul_one]
+
 theorem sum_map (g : τ → Nat) (h : σ → τ) (t : CT σ) : sum g (map h t) = sum (fun s => g (h s)) t := by
   simp only [map, sum_bind, sum_ret]
 
